@@ -5,6 +5,8 @@ import (
 	"fmt"
 	"go/token"
 	"go/types"
+	"os"
+	"path/filepath"
 	"regexp"
 	"strings"
 	"time"
@@ -106,6 +108,8 @@ type Exec struct {
 	nAssertSat int
 	nUnknown   int
 	natives    map[string]interface{}
+	fallbacks    map[string]*Solver
+	fallbackUsed map[string]int
 	pathNatives []string
 	submatchStub func(re *regexp.Regexp, s StrV) Value
 	fprintfHook  func(w IfaceV, s StrV)
@@ -126,6 +130,7 @@ type Config struct {
 	Tier        int
 	Solver      string
 	Timeout     time.Duration
+	PrimaryTimeout time.Duration
 	CrossSolver string
 	MaxInstr    int
 	MaxDepth    int
@@ -135,8 +140,12 @@ type Config struct {
 
 func newExec(prog *ssa.Program, pkg *ssa.Package, cfg *Config) *Exec {
 	ex := &Exec{prog: prog, pkg: pkg, cfg: cfg, globals: map[*ssa.Global]*Cell{}, funcsSeen: map[*ssa.Function]bool{}, stubsHit: map[string]int{},
-		maxInstr: cfg.MaxInstr, maxDepth: cfg.MaxDepth, tier: cfg.Tier, natives: map[string]interface{}{}, inited: map[*ssa.Package]bool{}, targetPkgs: map[string]bool{}}
-	ex.solver = newSolver(cfg.Solver, cfg.Timeout)
+		maxInstr: cfg.MaxInstr, maxDepth: cfg.MaxDepth, tier: cfg.Tier, natives: map[string]interface{}{}, fallbacks: map[string]*Solver{}, fallbackUsed: map[string]int{}, inited: map[*ssa.Package]bool{}, targetPkgs: map[string]bool{}}
+	pt := cfg.Timeout
+	if cfg.PrimaryTimeout > 0 && cfg.PrimaryTimeout < pt {
+		pt = cfg.PrimaryTimeout
+	}
+	ex.solver = newSolver(cfg.Solver, pt)
 	if cfg.CrossSolver != "" {
 		ex.solver2 = newSolver(cfg.CrossSolver, cfg.Timeout)
 	}
@@ -147,6 +156,9 @@ func (ex *Exec) close() {
 	ex.solver.close()
 	if ex.solver2 != nil {
 		ex.solver2.close()
+	}
+	for _, fb := range ex.fallbacks {
+		fb.close()
 	}
 }
 
@@ -159,7 +171,68 @@ func (ex *Exec) assertPC(t *Term) {
 }
 
 func (ex *Exec) feasible(t *Term) bool {
-	return ex.solver.checkWith(t) != "unsat"
+	r := ex.solver.checkWith(t)
+	if r == "unknown" {
+		r, _ = ex.fallbackQuery(t, nil)
+	}
+	if r == "unknown" {
+		ex.nUnknown++
+		if dir := os.Getenv("VERIF_DUMP_UNKNOWN"); dir != "" {
+			ex.dumpQuery(filepath.Join(dir, fmt.Sprintf("feas-%d.smt2", time.Now().UnixNano())), t)
+		}
+	}
+	return r != "unsat"
+}
+
+// fallbackQuery re-asks a query the primary solver could not decide: the whole path condition plus goal is sent
+// to the other back ends in turn (cvc5 with the integer encoding of bit-vectors, then z3). Returns the verdict and,
+// for sat, the values of want.
+func (ex *Exec) fallbackQuery(goal *Term, want []*Term) (string, []uint64) {
+	for _, kind := range []string{"cvc5-int", "z3-new"} {
+		if kind == ex.cfg.Solver {
+			continue
+		}
+		fb := ex.fallbacks[kind]
+		if fb == nil || fb.dead {
+			fb = newSolver(kind, ex.cfg.Timeout)
+			ex.fallbacks[kind] = fb
+		}
+		var res string
+		var vals []uint64
+		func() {
+			defer func() {
+				if r := recover(); r != nil {
+					if _, ok := r.(solverDied); ok {
+						res = "unknown"
+						return
+					}
+					panic(r)
+				}
+			}()
+			fb.push()
+			for _, p := range ex.pc {
+				fb.assert(p)
+			}
+			if goal != nil {
+				fb.assert(goal)
+			}
+			res = fb.check()
+			if res == "sat" && want != nil {
+				v, ok := fb.getValues(want)
+				if ok {
+					vals = v
+				} else {
+					res = "unknown"
+				}
+			}
+			fb.pop()
+		}()
+		ex.fallbackUsed[kind+":"+res]++
+		if res != "unknown" {
+			return res, vals
+		}
+	}
+	return "unknown", nil
 }
 
 // decide resolves a branch condition; symbolic conditions fork the exploration.
@@ -276,10 +349,18 @@ func (ex *Exec) model(extra []*Term) (map[string]string, []uint64, bool) {
 		ts = append(ts, in.T)
 	}
 	ts = append(ts, extra...)
-	if r := ex.solver.check(); r != "sat" {
-		return nil, nil, false
+	var vals []uint64
+	ok := false
+	r := ex.solver.check()
+	if r == "sat" {
+		vals, ok = ex.solver.getValues(ts)
 	}
-	vals, ok := ex.solver.getValues(ts)
+	if !ok && r != "unsat" {
+		r2, v2 := ex.fallbackQuery(nil, ts)
+		if r2 == "sat" {
+			vals, ok = v2, true
+		}
+	}
 	if !ok {
 		return nil, nil, false
 	}
